@@ -200,20 +200,20 @@ P = {
    technique="Coq proof (two-pass invariant induction over rows/cells; reduction to a bounding-box spec) + extracted-model correspondence on real .ods files",
    design_ref="5/C04"),
  "C13": dict(claimed=True,
-   text="Coq theorems over Cfb.v: C13_chain_follow (for any FAT, any duplicate-free chain ending in ENDOFCHAIN, any sector contents "
-        "and any state of the lazy sector cache, get_chain with fuel length fat + 1 returns the sectors in chain order truncated to "
-        "the declared length: any permutation / fragmentation), C13_chain_cycle_out_of_fuel (a repetition never terminates: OutOfFuel "
-        "for every fuel), C13_mini_compose / _mini_sector_in_root_chain, byte-level round trips of the FAT load, the directory chain "
-        "(v3 and v4 lengths), the mini-FAT load and the mini stream, and C13_layout_independent_partial: for every container (512 or "
-        "4096-byte sectors), every valid layout and every stream, get_stream on the Cfb value built from the tables cfb_write lays "
-        "down returns exactly the stream's bytes (+ has_directory, same_streams_same_read). PARTIAL: the byte-level header / DIFAT / "
-        "directory-entry parsing steps are not yet composed into the full C13_layout_independent (notes/C13.md lists the four missing "
-        "lemmas); those steps are covered by vm_compute examples through the bytes and by the correspondence run. Known class "
-        "bom_name with refutation lemma. Tie: hook Cfb::new / get_stream / has_directory on extracted cfb_write outputs (both sector "
-        "sizes, shuffled chains, boundary sizes, 40-entry directories, free sectors, > 109 FAT sectors), malformed containers, and "
-        "every xls fixture re-laid-out under random layouts through Xls::new.",
+   text="Coq theorems over Cfb.v, through the BYTES: C13_layout_independent — for every container (512- or 4096-byte sectors, any "
+        "named streams of any sizes) and every valid layout (placement of every FAT, DIFAT, directory, mini-FAT, mini-stream and "
+        "stream sector, directory order with unused entries, free sectors, start field of empty streams), "
+        "cfb_get_stream fuel (cfb_write c l) n = Ok b for every stream (fuel >= 1 + number of DIFAT sectors), hence "
+        "C13_same_streams_same_read; built from C13_header_roundtrip (v3/v4), C13_difat_roundtrip, C13_fat_load_roundtrip, "
+        "C13_dir_chain_roundtrip, C13_dirs_roundtrip (UTF-16 names), C13_minifat_load_roundtrip, C13_ministream_roundtrip, "
+        "C13_chain_follow (any duplicate-free chain, any state of the lazy sector cache), C13_mini_compose, C13_empty_stream; "
+        "C13_written_names_listed (interface for C20: every stream / storage name is listed, has_directory holds); "
+        "C13_chain_cycle_is_error and totality C13_chain_total, C13_no_panic_cfb_new, C13_no_panic_get_stream (all inputs: neither "
+        "Panic nor OutOfFuel at fuel > file length / 512). No known class left (2 repaired). Tie: hook Cfb::new / get_stream / "
+        "has_directory on extracted cfb_write outputs (both sector sizes, shuffled chains, boundary sizes, 40-entry directories, free "
+        "sectors, > 109 FAT sectors), malformed containers, and every xls fixture re-laid-out under random layouts through Xls::new.",
    note=TB + " The 7.2 MB DIFAT case is compared code vs spec only (the extracted model is too slow on it).",
-   technique="Coq proof (chain induction with cache invariant, sector arithmetic; partial composition) + extracted-encoder correspondence",
+   technique="Coq proof (byte-level round trips of header, DIFAT, FAT, directory, mini structures; chain induction with cache invariant) + extracted-encoder correspondence",
    design_ref="5/C13"),
  "C16": dict(claimed=True,
    text="Coq theorems over Meta.v: xlsx and ods complete — C16_report_xlsx / C16_report_ods: for every logical workbook (ordered sheets "
@@ -297,7 +297,7 @@ def main():
 
 # properties whose model is being brought up to date with fix: commits that just landed in /repo (their check
 # reports the stale model as a broken correspondence until the resync is merged); emptied as the resyncs land
-STALE = {"C02", "C03", "C05", "C12", "C13", "C14", "C16", "C18"}
+STALE = {"C02", "C03", "C05", "C12", "C14", "C16", "C18"}
 STALE_REASON = ("temporarily not claimed: the model is being resynchronised with the C06 hardening fix: commits (Panic -> Err at "
                 "file-declared lengths / indices / offsets); until that is merged the check reports the stale model as a broken "
                 "model/code correspondence")
